@@ -3,7 +3,7 @@
 from .. import core, tree
 
 MOD = "mc.props.c05"
-KINDS = ("node", "user", "light", "anynode", "weird", "eqhash", "falsy", "falsylight", "container", "tuplenode", "tuple0")
+KINDS = ("node", "user", "light", "anynode", "weird", "eqhash", "falsy", "falsylight", "container", "tuplenode", "tuple0", "datanode")
 
 
 def iterators():
@@ -80,6 +80,16 @@ def check_shape(t, shape, kinds=KINDS, hows=("topdown", "bottomup")):
                         why = "%s: an exhausted iterator yields nodes again" % name
                     elif _ids(inter + rest, idm) != _ids(first, idm):
                         why = "%s: two interleaved iterators over the same start node disturb each other" % name
+                    if why is None and how == "topdown":
+                        # a not-yet-started iterator kept as a template: its copies traverse independently of each other
+                        import copy
+
+                        tmpl = cls(nodes[start])
+                        c1, c2 = copy.copy(tmpl), copy.copy(tmpl)
+                        seqs = [_ids(list(c1), idm), _ids(list(c2), idm), _ids(list(tmpl), idm)]
+                        t.c["iterator_reuse_checks"] += 1
+                        if any(x != exp[name] for x in seqs):
+                            why = "%s: copies (copy.copy) of a not-yet-started iterator do not traverse independently" % name
                     if why:
                         t.violation("C05: " + why, case(shape, kind, how, start, name, exp[name], "re-use"))
                         continue
